@@ -115,17 +115,18 @@ def equiv_stmts(s1, s2, tol=1e-6, perm=None, max_outcomes=6):
         return False, float("inf"), "different number of measurements/resets"
     if na > max_outcomes:
         return True, 0.0, "skipped: too many outcomes"
-    z = None; worst = 0.0
-    for oc in itertools.product([0, 1], repeat=na):
-        A = circ_matrix(a, n, oc); B = circ_matrix(b, n, oc)
-        if z is None:
-            idx = np.unravel_index(np.argmax(np.abs(A)), A.shape)
-            if abs(A[idx]) > 1e-6:
-                if abs(B[idx]) < 1e-9:
-                    return False, float(abs(A[idx])), "operator vanishes on one side"
-                z = A[idx] / B[idx]; z = z / abs(z)
-        d = float(np.abs(A - (z if z is not None else 1) * B).max())
-        worst = max(worst, d)
+    pairs = [(circ_matrix(a, n, oc), circ_matrix(b, n, oc)) for oc in itertools.product([0, 1], repeat=na)]
+    # one global phase for all outcomes, estimated from the largest element over all outcomes
+    best = max(pairs, key=lambda p: float(np.abs(p[0]).max()))
+    A0, B0 = best
+    idx = np.unravel_index(np.argmax(np.abs(A0)), A0.shape)
+    if abs(A0[idx]) < 1e-9:
+        worst = max(float(np.abs(B).max()) for _, B in pairs)
+        return worst <= tol, worst, "operators differ" if worst > tol else ""
+    if abs(B0[idx]) < 1e-9:
+        return False, float(abs(A0[idx])), "operator vanishes on one side"
+    z = A0[idx] / B0[idx]; z = z / abs(z)
+    worst = max(float(np.abs(A - z * B).max()) for A, B in pairs)
     return worst <= tol, worst, "operators differ" if worst > tol else ""
 
 def is_unitary(M, tol=1e-9):
